@@ -104,6 +104,12 @@ def gen_case(rng):
         decls.append("  Real wb_%s = der(%s);" % (n, n))
         ref["alg_states"].append("wb_" + n)
         tags.add("der:only-in-declaration-binding")
+    if rng.random() < 0.15:
+        # an output array of size 0: it has no elements, is in no category and must not be listed as an output either
+        decls.append("  parameter Integer nz = 0;")
+        decls.append("  output Real yz[nz];")
+        ref["parameters"].append("nz")
+        tags.add("zero-size-output-array")
     eqs, ieqs = [], []
     for n in sorted(der_direct):
         eqs.append("  der(%s) = %s;" % (n, round(rng.uniform(-2, 2), 2)))
